@@ -56,23 +56,23 @@ type VRun struct {
 
 // VCase is one V-mode case: a parsed tree, the registry it includes from, the data, the runs.
 type VCase struct {
-	ID           int
-	Src          string
-	KeepFmt      bool
-	Tree         []dyntpl.VerifNode
-	Reg          map[string][]dyntpl.VerifNode
-	RegKeys      []string
-	Data         *DataEnv
-	Flits        map[string]float64
-	Budget       int
-	Runs         []VRun
-	Meta         map[string]any
-	Spec         string   // Gallina definition of the specification-side case (optional)
-	SpecVerdict  string   // "ok" | "na" | "bad <hex> <err>" | ""
-	ParseVerdict string   // "ok", "bad" or ""
-	PMVerdict    string   // parser model on the bytes of the source: "PMOk", "PMBadTree", "PMBadErr", "PMFuel" or ""
-	NoParserModel bool    // leave the parser model out for this case
-	Verdict      []string // filled by RunCases: "ok" | "skip" | "fuel" | "bad <hex> <err> <writes>"
+	ID            int
+	Src           string
+	KeepFmt       bool
+	Tree          []dyntpl.VerifNode
+	Reg           map[string][]dyntpl.VerifNode
+	RegKeys       []string
+	Data          *DataEnv
+	Flits         map[string]float64
+	Budget        int
+	Runs          []VRun
+	Meta          map[string]any
+	Spec          string   // Gallina definition of the specification-side case (optional)
+	SpecVerdict   string   // "ok" | "na" | "bad <hex> <err>" | ""
+	ParseVerdict  string   // "ok", "bad" or ""
+	PMVerdict     string   // parser model on the bytes of the source: "PMOk", "PMBadTree", "PMBadErr", "PMFuel" or ""
+	NoParserModel bool     // leave the parser model out for this case
+	Verdict       []string // filled by RunCases: "ok" | "skip" | "fuel" | "bad <hex> <err> <writes>"
 }
 
 func (vc *VCase) gallina() string {
